@@ -65,17 +65,21 @@ def gen_case(rnd, prop, tier):
     cliques, kind = gen.gen_cliques(rnd, attrs, max_width=3)
     ninf = rnd.choice([0.0, 0.0, 0.0, 0.1])
     scale = rnd.choice([0.5, 1.0, 3.0])
+    big = rnd.random() < 0.15       # parameters of magnitude ~100-250 per clique (their sum passes the range of exp()); no Kronecker queries then
+    if big:
+        scale = rnd.choice([60.0, 150.0])
     witness = {a: rnd.randrange(s) for a, s in zip(attrs, sizes)}
     pots = []
     for cl in cliques:
         shape = [sizes[attrs.index(a)] for a in cl]
         p = gen.gen_potential(rnd, shape, scale, ninf, [witness[a] for a in cl])
-        pots.append([max(-10.0, min(10.0, v)) if np.isfinite(v) else v for v in p])
+        lim = 250.0 if big else 10.0
+        pots.append([max(-lim, min(lim, v)) if np.isfinite(v) else v for v in p])
     total = rnd.choice([1.0, 1.0, 10.0, 123.5, 1e4, 0.25])
     elim = a_bp.gen_elim(rnd, attrs)
     if isinstance(elim, dict):
         elim = None
-    source = 'estimate' if (cliques and rnd.random() < 0.2) else 'direct'
+    source = 'estimate' if (cliques and rnd.random() < 0.2 and not big) else 'direct'
     fsmode = rnd.choice(['clean', 'clean', 'clean', 'faulty'])
     ops = []
     for _ in range(rnd.randint(4, 10)):
@@ -84,7 +88,7 @@ def gen_case(rnd, prop, tier):
             ops.append(['project', gen_query(rnd, attrs, cliques), rnd.choice(['tuple', 'list'])])
         elif r < 0.65:
             ops.append(['many', [gen_query(rnd, attrs, cliques) for _ in range(rnd.randint(1, 4))]])
-        elif r < 0.77:
+        elif r < 0.77 and not big:
             ops.append(['krondot', rnd.getrandbits(32), [rnd.randint(1, 3) for _ in attrs]])
         elif r < 0.83:
             ops.append(['datavector', rnd.random() < 0.5])
